@@ -9,6 +9,7 @@ def check(rep):
         LR.validate_engine(ctx)
     LR.rule_comment_end(ctx)
     LR.rule_trivia_start(ctx)
+    LR.rule_token_end_stable(ctx)
     LR.rule_trivia_silent(ctx)
     LR.rule_trivia_shield(ctx)
     LR.rule_trivia_munch(ctx)
